@@ -73,10 +73,7 @@ def make_states(r):
             sep = r.choice([",", ", ", " , "])
             return sep.join(refs)
 
-        dup = r.random() < 0.15
-        st = difflab.gen_state(r, path, suffix, "f%db" % fi, affects_fn=affects_fn)
-        if dup and len(st.blocks) >= 2:
-            pass    # duplicate names are produced through the shared prefix of nested files below
+        st = difflab.gen_state(r, path, suffix, "f%db" % fi, affects_fn=affects_fn, dup_rate=0.35 if r.random() < 0.3 else 0.0)
         states[path] = st
     return states
 
